@@ -8,6 +8,7 @@ A SRC value at a mutating sink, a DST value at a fidelity/read sink, or MIXED
 anywhere at a sink is a violation."""
 from cfg import op_local, op_place, rv_operands
 from engine import Ob, mkkey, anchor_ob
+import re
 import q
 import r_order as ro
 from names import *
@@ -66,6 +67,11 @@ TRANSPARENT = {
     "std::fs::canonicalize": [0], "std::path::Path::canonicalize": [0],
     "std::path::Path::join": [0],            # x.join(rel) stays in x's tree
     "walkdir::WalkDir::new": [0], "walkdir::WalkDir::follow_links": [0], "walkdir::IntoIter::filter_entry": [0],
+    # (the other builder methods configure the same walk of the same root)
+    "walkdir::WalkDir::max_depth": [0], "walkdir::WalkDir::min_depth": [0], "walkdir::WalkDir::max_open": [0],
+    "walkdir::WalkDir::same_file_system": [0], "walkdir::WalkDir::contents_first": [0], "walkdir::WalkDir::sort_by": [0],
+    "walkdir::WalkDir::sort_by_key": [0], "walkdir::WalkDir::sort_by_file_name": [0], "walkdir::WalkDir::follow_root_links": [0],
+    "walkdir::IntoIter::skip_current_dir": [], "walkdir::FilterEntry::<I, P>::filter_entry": [0],
     "walkdir::dent::DirEntry::into_path": [0], "walkdir::dent::DirEntry::path": [0],
     # descriptors and metadata inherit the role of what they were opened on / read from
     FILE_OPEN: [0], FILE_CREATE: [0],
@@ -187,6 +193,16 @@ def _units(fx, _memo={}):
     return us
 
 
+def _path_param_role(ty):
+    """`Vec<PathBuf>` / `&[PathBuf]` are the sources, a single `&Path` / `PathBuf` is the destination."""
+    t = ty.replace("&mut ", "").replace("&", "").strip()
+    if re.match(r"^(alloc::vec::Vec<std::path::PathBuf(, [^>]*)?>|\[std::path::PathBuf\])$", t):
+        return SRC
+    if t in ("std::path::Path", "std::path::PathBuf"):
+        return DST
+    return None
+
+
 class Roles:
     def __init__(self, fx):
         self.fx = fx
@@ -213,10 +229,31 @@ class Roles:
                         self.closure_parent[rv["closure"]] = (f, rv["fields"])
         for (fp, l), r in SEEDS.items():
             self.role[(fp, l)] = r
-        for p_ in fx.fns:
-            if p_.endswith(" as libxcp::drivers::CopyDriver>::copy"):
+        # the drivers' entry point takes "many sources, one destination" -- as two parameters, or as the fields
+        # of a request struct
+        self.seeded_fields = {}
+        for p_, g_ in fx.fns.items():
+            if not p_.endswith(" as libxcp::drivers::CopyDriver>::copy"):
+                continue
+            plain = []
+            for l_ in range(2, g_.argc + 1):
+                ty_ = g_.locals[l_]["ty"]
+                r_ = _path_param_role(ty_)
+                if r_ is not None:
+                    self.role[(p_, l_)] = r_
+                    plain.append(r_)
+                    continue
+                a_ = fx.adts.get(ty_.lstrip("&").replace("mut ", ""))
+                if a_ is not None and a_.get("kind") == "struct" and ty_.split("::")[0].lstrip("&") in ("libxcp", "xcp"):
+                    for v_ in a_.get("variants", []):
+                        for fl_ in v_.get("fields", []):
+                            fr_ = _path_param_role(fl_.get("ty") or "")
+                            if fr_ is not None:
+                                self.seeded_fields[(a_["path"], fl_.get("name"))] = fr_
+            if not plain and not self.seeded_fields:
                 self.role[(p_, 2)] = SRC
                 self.role[(p_, 3)] = DST
+        self.frole.update(self.seeded_fields)
         self._solve()
 
     def get(self, f, l):
@@ -308,7 +345,8 @@ class Roles:
                                         self.frole[key_] = new_
                                         changed = True
                         elif k == "agg" and rv.get("ak") == "adt" and rv.get("adt") in (
-                                "core::option::Option", "core::result::Result", "core::ops::control_flow::ControlFlow"):
+                                "core::option::Option", "core::result::Result", "core::ops::control_flow::ControlFlow",
+                                "alloc::borrow::Cow"):
                             if rv.get("variant") not in ("Err", "Break"):     # an error value names no file
                                 for o in rv["fields"]:
                                     r = join(r, self.operand_role(f, o))
@@ -344,6 +382,11 @@ class Roles:
                     elif tgt is not None:
                         # result of a workspace function: role of its return place
                         r = self.get(tgt, 0)
+                    elif args and (t.get("arg_tys") or [None])[0] == t.get("dest_ty") and \
+                            "::" in (t.get("dest_ty") or "") and p not in self.fx.fns:
+                        # a library method that hands back its receiver's own type (a builder step:
+                        # `WalkDir::max_depth(self, n) -> Self`, `OpenOptions::mode(&mut self, m) -> &mut Self`)
+                        r = self.operand_role(f, args[0])
                     if o in ABSORBS:
                         di, si = ABSORBS[o]
                         dl = op_local(args[di])
